@@ -5,7 +5,7 @@ from sa.effects import all_events
 from sa.terms import C, CallT, P, Sub, SubC, is_call, is_lit, norm_codec, root_of, show, subst
 from sa.walker import State, flatten_events
 
-from . import fn_site
+from . import own_site, fn_site
 from .c08 import _inplace_signers
 from .signer import canon_bytes, entry_dict, pubhex_of_private, signature_hex
 from .vs import hexconj
@@ -49,7 +49,7 @@ def run(ctx):
     ctx.ob("R1", "gate-key", site.loc(), "the private key argument %s the 64-hex grammar on every completing path" % ("passed" if g_key else "did NOT pass"), g_key)
     ctx.ob("R1", "gate-fname", site.loc(), "fname %s" % ("is checked to be a str" if g_name else "is not checked to be a str"), g_name)
     ctx.ob("R1", "gate-packages", site.loc(), "'packages' in the loaded document %s" % ("is established on every completing path" if g_pk else "is not established"), g_pk)
-    miss = [p for p in sm.paths if p.kind == "raise" and p.value.origin == "explicit" and len(p.value.chain) == 1 and ("nothas", L, C("packages")) in p.facts]
+    miss = [p for p in sm.paths if p.kind == "raise" and p.value.origin == "explicit" and all(own_site(eng, st_, "signing.sign_all_in_repodata") for st_ in p.value.chain) and ("nothas", L, C("packages")) in p.facts]
     ctx.ob("R1", "no-packages-error", site.loc(), "a document without 'packages' is rejected with %s" % (miss[0].value.exc if miss else "nothing explicit"), bool(miss) and eng.prog.exc_is_sub(miss[0].value.exc, "ValueError"))
 
     # a document that is rebuilt ({**L, "signatures": <computed mapping>}) instead of updated in
